@@ -394,18 +394,15 @@ void h_##fn(void) \
 H_BITOP(register_bit_set)
 H_BITOP(register_bit_clear)
 
-/* A second register g (handle in_gi != in_idx) of the same table, in the same
- * area or in a second area b, not sharing storage with register in_idx; the
- * ghost cell may also lie in area b. */
+/* A second register g (handle in_gi != in_idx) of the same table and the same
+ * area, not sharing storage words with register in_idx.  (A register of
+ * another area has its words in another object, which no assigns clause of
+ * the operations reaches.) */
 #define RT_SECOND() \
-  IN(uint32_t, in_gi) IN(_Bool, in_g_same_area) IN(_Bool, in_cell_in_b) \
+  IN(uint32_t, in_gi) \
   ASSUME(RT_INIT(t) && !RT_DURING(t) && in_gi < in_entries && in_gi != in_idx); \
-  RegisterArea *area_a = a; \
-  RegisterArea *b; { RT_AREA(a, in_b) b = a; } \
-  RegisterArea *ga = in_g_same_area ? area_a : b; \
-  { RT_ENTRY(gent, ga, in_g) t->entry[in_gi] = gent; } \
-  if (in_idx < in_entries) ASSUME(rt_disjoint(t, in_idx, in_gi)); \
-  if (in_cell_in_b && g_k < b->size) g_cell = &b->mem[g_k];
+  { RT_ENTRY(gent, a, in_g) t->entry[in_gi] = gent; } \
+  if (in_idx < in_entries) ASSUME(rt_disjoint(t, in_idx, in_gi));
 
 /* Step obligations of the invariant for one checked operation OP on register
  * in_idx (the call is replaced by the operation's contract):
